@@ -2,12 +2,20 @@
 
 Accepted: assignments, tuple unpacking, return, + - * / unary -, math.sin/cos/pi, indexing of constant tuples,
 typing.cast, calls to repository functions and methods of the same kind, module constants.  Anything else
-(branches on symbolic values, loops, other library calls) raises Unsupported: the check is then undecided."""
+(loops, other library calls, branches on anything but `x < c` / `abs(x) < c` for a float local x) raises Unsupported:
+the check is then undecided.
+
+Branches on an interval-valued local: every feasible side is executed on the refined interval (the threshold is widened
+by the running rounding-error bound of x, because the binary64 comparison may differ from the real one by that much);
+values returned under a side are joined (interval hull, derivatives included) with the value the rest of the function
+returns; environments of the sides that fall through are joined the same way.  `piecewise` is set whenever more than one
+side was feasible: derivative enclosures are then hulls over the pieces and a Taylor form across the pieces is NOT valid -
+callers must fall back to the plain range enclosure for that box."""
 import ast
 import math
 
 from ..pyvc.src import Repo, ShapeMismatch
-from .jets import J, jsin, jcos
+from .jets import J, jsin, jcos, jsqrt
 
 
 class Unsupported(Exception):
@@ -24,10 +32,39 @@ class Obj:
         self.cls, self.mod = cls, mod
 
 
+def _b(x):
+    from mpmath import mp as _mp
+    return _mp.mpf(x._mpi_[0]), _mp.mpf(x._mpi_[1])
+
+
+def hull_j(vals):
+    from mpmath import iv as _iv
+    out = []
+    for comp in ("v", "d1", "d2"):
+        bs = [_b(getattr(v, comp)) for v in vals]
+        out.append(_iv.mpf([min(b[0] for b in bs), max(b[1] for b in bs)]))
+    return J(out[0], out[1], out[2], max(v.err for v in vals))
+
+
+def hull_val(vals):
+    """Join of the values a name (or a function result) has on the different sides of a branch."""
+    if all(isinstance(v, J) for v in vals):
+        return hull_j(vals)
+    if all(isinstance(v, (int, float, J)) and not isinstance(v, bool) for v in vals):
+        return hull_j([v if isinstance(v, J) else J.const(v) for v in vals])
+    if all(isinstance(v, tuple) for v in vals) and len({len(v) for v in vals}) == 1 and not any(v and isinstance(v[0], str) for v in vals):
+        return tuple(hull_val([v[i] for v in vals]) for i in range(len(vals[0])))
+    if not any(isinstance(v, J) for v in vals) and all(v is vals[0] or (type(v) is type(vals[0]) and v == vals[0]) for v in vals):
+        return vals[0]
+    raise Unsupported("values of different kinds meet after a branch")
+
+
 class FloatEval:
     def __init__(self, repo):
         self.repo = repo
         self.ops = 0
+        self.piecewise = False
+        self._pending = []
 
     def call(self, qual, *args):
         mod, fnode, cls = self.repo.function(qual)
@@ -40,12 +77,25 @@ class FloatEval:
         if len(args) != len(names):
             raise Unsupported("arity of %s" % fnode.name)
         env = dict(zip(names, args))
+        return self.run_block(mod, env, fnode.body)
+
+    def run_block(self, mod, env, stmts):
+        """Execute statements as a function body; values returned under branches are joined with the final one."""
+        self._pending.append([])
+        returned, final = False, None
         try:
-            for st in fnode.body:
-                self.stmt(mod, env, st)
-        except _Return as r:
-            return r.v
-        return None
+            try:
+                for st in stmts:
+                    self.stmt(mod, env, st)
+            except _Return as r:
+                returned, final = True, r.v
+        finally:
+            pend = self._pending.pop()
+        if not pend:
+            return final
+        if not returned:
+            raise Unsupported("a path falls off the end of a function that returns a value on another path")
+        return hull_val(pend + [final])
 
     def stmt(self, mod, env, st):
         if isinstance(st, ast.Expr):
@@ -74,35 +124,48 @@ class FloatEval:
                     self.stmt(mod, env, s)
                 return
             if isinstance(t, tuple) and t[0] == "cmp":
-                # comparison of an interval-valued local with a constant: both branches on the refined intervals,
-                # results joined (interval hull) - only for assignments to simple names
-                _, name, op, c = t
-                from mpmath import iv as _iv, mp as _mp
+                _, name, t_ranges, f_ranges = t
+                from mpmath import iv as _iv
                 cur = env[name]
-                lo, hi = float(_mp.mpf(cur.v._mpi_[0])), float(_mp.mpf(cur.v._mpi_[1]))
-                if op in ("<", "<="):
-                    tr, fr = (lo, min(hi, c)), (max(lo, c), hi)
-                else:
-                    tr, fr = (max(lo, c), hi), (lo, min(hi, c))
-                outs = []
-                for rng, body in ((tr, st.body), (fr, st.orelse)):
-                    if rng[0] > rng[1]:
-                        continue
-                    e2 = dict(env)
-                    e2[name] = J(_iv.mpf([rng[0], rng[1]]), 0, 0, cur.err)
-                    for s2 in body:
-                        self.stmt(mod, e2, s2)
-                    outs.append(e2)
+                blo, bhi = _b(cur.v)
+                lo, hi, e = float(blo), float(bhi), float(cur.err)
+                if lo > blo:
+                    lo = math.nextafter(lo, -math.inf)
+                if hi < bhi:
+                    hi = math.nextafter(hi, math.inf)
+                outs, rets, feasible = [], [], 0
+                for ranges, body in ((t_ranges, st.body), (f_ranges, st.orelse)):
+                    for a, b in ranges:
+                        a2, b2 = max(lo, a - e), min(hi, b + e)
+                        if a2 > b2:
+                            continue
+                        feasible += 1
+                        e2 = dict(env)
+                        e2[name] = J(_iv.mpf([a2, b2]), cur.d1, cur.d2, cur.err)
+                        try:
+                            for s2 in body:
+                                self.stmt(mod, e2, s2)
+                            outs.append(e2)
+                        except _Return as r:
+                            rets.append(r.v)
+                if feasible > 1:
+                    self.piecewise = True
+                if rets:
+                    if not outs:
+                        raise _Return(hull_val(rets))
+                    if not self._pending:
+                        raise Unsupported("return under a branch outside run_block")
+                    self._pending[-1].extend(rets)
                 if not outs:
                     return
-                for k in set().union(*[set(o) for o in outs]):
+                for k in set(env) | set().union(*[set(o) for o in outs]):
                     vals = [o[k] for o in outs if k in o]
-                    if all(isinstance(v, J) for v in vals) and len(vals) == len(outs):
-                        a = min(float(_mp.mpf(v.v._mpi_[0])) for v in vals)
-                        b = max(float(_mp.mpf(v.v._mpi_[1])) for v in vals)
-                        env[k] = J(_iv.mpf([a, b]), 0, 0, max(v.err for v in vals))
-                    elif len(vals) == len(outs) and all(v is vals[0] or v == vals[0] for v in vals):
-                        env[k] = vals[0]
+                    try:
+                        if len(vals) != len(outs):
+                            raise Unsupported("bound on one side only")
+                        env[k] = hull_val(vals)
+                    except Unsupported:
+                        env.pop(k, None)          # not joinable: any later use is unsupported
                 return
         raise Unsupported("UNSUPPORTED %s:%d %s" % (mod.path, st.lineno, type(st).__name__))
 
@@ -194,12 +257,26 @@ class FloatEval:
             if isinstance(e.op, ast.Div):
                 return a / b
             raise Unsupported("UNSUPPORTED operator %s at %s:%d" % (type(e.op).__name__, mod.path, e.lineno))
-        if isinstance(e, ast.Compare) and len(e.ops) == 1 and isinstance(e.left, ast.Name) and isinstance(env.get(e.left.id), J):
-            c = self.expr(mod, env, e.comparators[0])
-            if isinstance(c, (int, float)):
+        if isinstance(e, ast.Compare) and len(e.ops) == 1:
+            left, is_abs = e.left, False
+            if isinstance(left, ast.Call) and isinstance(left.func, ast.Name) and left.func.id == "abs" and len(left.args) == 1 and not left.keywords \
+                    and "abs" not in env:
+                left, is_abs = left.args[0], True
+            if isinstance(left, ast.Name) and isinstance(env.get(left.id), J):
+                c = self.expr(mod, env, e.comparators[0])
                 opn = {ast.Lt: "<", ast.LtE: "<=", ast.Gt: ">", ast.GtE: ">="}.get(type(e.ops[0]))
-                if opn:
-                    return ("cmp", e.left.id, opn, float(c))
+                if isinstance(c, (int, float)) and not isinstance(c, bool) and opn:
+                    c = float(c)
+                    inf = math.inf
+                    if is_abs:
+                        inside, outside = [(-c, c)], [(-inf, -c), (c, inf)]
+                        if c < 0:
+                            inside, outside = [], [(-inf, inf)]
+                        tr, fr = (inside, outside) if opn in ("<", "<=") else (outside, inside)
+                    else:
+                        below, above = [(-inf, c)], [(c, inf)]
+                        tr, fr = (below, above) if opn in ("<", "<=") else (above, below)
+                    return ("cmp", left.id, tr, fr)
         if isinstance(e, ast.Subscript):
             b = self.expr(mod, env, e.value)
             i = self.expr(mod, env, e.slice)
@@ -239,6 +316,8 @@ class FloatEval:
                         return jsin(self.lift(args[0])) if isinstance(args[0], J) else math.sin(args[0])
                     if fn is math.cos:
                         return jcos(self.lift(args[0])) if isinstance(args[0], J) else math.cos(args[0])
+                    if fn is math.sqrt:
+                        return jsqrt(self.lift(args[0])) if isinstance(args[0], J) else math.sqrt(args[0])
                     if not any(isinstance(a, J) for a in args):
                         return fn(*args)
                     raise Unsupported("UNSUPPORTED call %s at %s:%d" % (getattr(fn, "__name__", fn), mod.path, e.lineno))
